@@ -224,7 +224,13 @@ Print Assumptions C09_void_columns_have_no_states.
 (* ------------------------------------------------------------------ variables *)
 (* The variable generated for column i reads, from ANY example built by to_example with
    the same columns, the converted cell i of the record -- for ANY columns (void columns
-   included), ANY record of the right width, weak or strong typing. *)
+   included), ANY record of the right width, weak or strong typing.
+   NO hypothesis on the column NAMES: setup_terminals (HEAD) inserts one variable per column
+   with a domain whatever its name -- repeated names, a name equal to the default name X<i> of
+   another column, names of primitives, empty names -- so the theorem identifies the variable
+   of column i by its POSITION [rank cols i] among the variables (symbol_set::decode(name)
+   would return the first of two homonyms, but nothing in the reader looks variables up by
+   name).  Example C09_duplicate_names_nonvacuous below; the check's oracle is positional too. *)
 Theorem C09_variable_i_reads_column_i :
   forall is_number stod stoi df strong vars v add ex df',
   setup_terminals fixed_v (columns df) strong = Ok vars ->
@@ -543,3 +549,14 @@ Example C09_has_header_with_nonvacuous := HeaderProofs.ex_mixed_with_header_by_t
 Example C09_has_header_without_nonvacuous := HeaderProofs.ex_mixed_without_header_by_theorem.
 Example C09_sniffed_read_nonvacuous :=
   (SniffedSanity.sniffed_header_by_theorem, SniffedSanity.sniffed_no_header_by_theorem).
+
+(* columns named y, a, a, b (a repeated name followed by another input column): three
+   variables a, a, b with ids 0, 1, 2; and y, "", X1, c: the unnamed column 1 gets the default
+   name X1, the column explicitly named X1 keeps it, ids 0, 1, 2 *)
+Example C09_duplicate_names_nonvacuous :
+  let col n := {| c_name := n; c_domain := DDouble; c_states := [] |} in
+  (exists vars, setup_terminals fixed_v [col [121]; col [97]; col [97]; col [98]] false = Ok vars /\
+                map v_name vars = [[97]; [97]; [98]] /\ map v_id vars = [0; 1; 2]%nat)
+  /\ (exists vars, setup_terminals fixed_v [col [121]; col []; col [88; 49]; col [99]] false = Ok vars /\
+                   map v_name vars = [[88; 49]; [88; 49]; [99]] /\ map v_id vars = [0; 1; 2]%nat).
+Proof. vm_compute. split; eexists; repeat split; reflexivity. Qed.
